@@ -427,14 +427,80 @@ func scaleText(family string, n int) string {
 			fmt.Fprintf(&sb, "n%d\n", i)
 		}
 		sb.WriteString("dat n0\n")
+	case "strategy_lines":
+		for i := 0; i < n; i++ {
+			fmt.Fprintf(&sb, ";strategy line %d of the description\n", i)
+		}
+		sb.WriteString("dat 0\n")
+	case "name_lines":
+		for i := 0; i < n; i++ {
+			fmt.Fprintf(&sb, ";name draft %d\n;author nobody %d\n", i, i)
+		}
+		sb.WriteString("dat 0\n")
+	case "assert_lines":
+		for i := 0; i < n; i++ {
+			fmt.Fprintf(&sb, ";assert CORESIZE > %d\n", i%100)
+		}
+		sb.WriteString("dat 0\n")
+	case "nested_for": // k*k*k >= n copies from three nested blocks
+		k := 1
+		for k*k*k < n {
+			k++
+		}
+		fmt.Fprintf(&sb, "i for %d\nj for %d\nk for %d\ndat i+j, k\nrof\nrof\nrof\n", k, k, k)
+	case "gap_labels": // labels on their own lines, a comment line after each
+		for i := 0; i < n; i++ {
+			fmt.Fprintf(&sb, "l%d\n;c\n", i)
+		}
+		sb.WriteString("dat l0\n")
+	case "equ_use": // one EQU used twice by every line
+		sb.WriteString("x equ 1+1\n")
+		for i := 0; i < n; i++ {
+			sb.WriteString("dat x, x\n")
+		}
+	case "long_exprs": // every tenth line carries a 40-term sum
+		for i := 0; i < n; i++ {
+			if i%10 == 0 {
+				sb.WriteString("dat 1" + strings.Repeat("+1", 40) + "\n")
+			} else {
+				sb.WriteString("dat 1\n")
+			}
+		}
+	case "end_expr":
+		for i := 0; i < n; i++ {
+			sb.WriteString("lbl" + fmt.Sprint(i) + " dat 1\n")
+		}
+		fmt.Fprintf(&sb, "end lbl%d\n", n-1)
+	case "equ_chain_uses": // a chain of 20 EQUs used by every line
+		for i := 0; i < 20; i++ {
+			fmt.Fprintf(&sb, "s%d equ s%d\n", i, i+1)
+		}
+		sb.WriteString("s20 equ 1\n")
+		for i := 0; i < n; i++ {
+			sb.WriteString("dat s0\n")
+		}
+	case "colon_labels":
+		for i := 0; i < n; i++ {
+			fmt.Fprintf(&sb, "l%d: dat l%d\n", i, (i+n-1)%n)
+		}
+	case "for_counter_labels": // n/40 labelled blocks whose labels are used
+		for i := 0; i < n/40; i++ {
+			fmt.Fprintf(&sb, "b%d i for 2\ndat i, b%d\nrof\n", i, i)
+			for k := 0; k < 36; k++ {
+				sb.WriteString("dat 0\n")
+			}
+		}
 	}
 	return sb.String()
 }
 
-var scaleFamilies = []string{"for_blocks", "for_blocks_equ", "equ_chain", "equ_fanout", "equ_many", "labels", "lines", "comments", "for_flat", "one_label_many_names"}
+var scaleFamilies = []string{"for_blocks", "for_blocks_equ", "equ_chain", "equ_fanout", "equ_many", "labels", "lines", "comments", "for_flat", "one_label_many_names",
+	"strategy_lines", "name_lines", "assert_lines", "nested_for", "gap_labels", "equ_use", "long_exprs", "end_expr", "equ_chain_uses", "colon_labels", "for_counter_labels"}
+
+var scaleSizes = []int{12000, 16000, 14000}
 
 func genScaleCase(t *rapid.T) scaleCase {
-	return scaleCase{Family: rapid.SampledFrom(scaleFamilies).Draw(t, "family"), N: rapid.SampledFrom([]int{6000, 8000, 7000}).Draw(t, "n")}
+	return scaleCase{Family: rapid.SampledFrom(scaleFamilies).Draw(t, "family"), N: rapid.SampledFrom(scaleSizes).Draw(t, "n")}
 }
 
 func judgeScaleCase(t testing.TB) func(c scaleCase, rec *hx.Rec) string {
@@ -443,11 +509,12 @@ func judgeScaleCase(t testing.TB) func(c scaleCase, rec *hx.Rec) string {
 			return "malformed case"
 		}
 		cl := worker(t)
-		measure := func(n int) (int64, string) {
+		accepted := false
+		measure := func(n, runs int) (int64, string) {
 			text := scaleText(c.Family, n)
 			best := int64(-1)
-			for r := 0; r < 3; r++ {
-				rs, st, err := cl.Call(wk.Request{Mode: 2, M: 8000, P: 8000, L: 1 << 30, D: 100, Text: []byte(text), CapMiB: 2048}, 120*time.Second)
+			for r := 0; r < runs; r++ {
+				rs, st, err := cl.Call(wk.Request{Mode: 2, M: 1 << 34, P: 8000, L: 1 << 30, D: 100, Text: []byte(text), CapMiB: 2048}, 120*time.Second)
 				if err != nil {
 					panic("INCOMPLETE: " + err.Error())
 				}
@@ -457,27 +524,32 @@ func judgeScaleCase(t testing.TB) func(c scaleCase, rec *hx.Rec) string {
 				if rs.Panic != "" || rs.OOM {
 					return 0, fmt.Sprintf("family %s with n=%d: panic or memory cap: %s", c.Family, n, clip(rs.Panic))
 				}
+				if strings.Contains(rs.Err, "invalid config") {
+					panic("INCOMPLETE: the scaling configuration is refused: " + rs.Err)
+				}
+				accepted = !rs.HasErr
 				if best < 0 || rs.ElapsedUs < best {
 					best = rs.ElapsedUs
 				}
 			}
 			return best, ""
 		}
-		t1, msg := measure(c.N)
+		// noise only ever adds time: the smaller run is measured twice (an inflated
+		// denominator would hide growth), the larger one once, and again when it looks bad
+		t1, msg := measure(c.N, 2)
 		if msg != "" {
 			return msg
 		}
-		t5, msg := measure(5 * c.N)
+		t5, msg := measure(5*c.N, 1)
 		if msg != "" {
 			return msg
 		}
 		// linear growth gives a factor of about 5; quadratic 25. Only judged when the larger run is long enough to be measured reliably.
 		if t5 > 300000 && t5 > 12*t1 {
-			// timing is noisy on a busy machine: measure once more and keep the better numbers
-			if a, m1 := measure(c.N); m1 == "" && a < t1 {
+			if a, m1 := measure(c.N, 2); m1 == "" && a < t1 {
 				t1 = a
 			}
-			if b, m5 := measure(5 * c.N); m5 == "" && b < t5 {
+			if b, m5 := measure(5*c.N, 2); m5 == "" && b < t5 {
 				t5 = b
 			}
 		}
@@ -486,20 +558,47 @@ func judgeScaleCase(t testing.TB) func(c scaleCase, rec *hx.Rec) string {
 		}
 		if rec != nil {
 			rec.Case(true, hx.HashJSON(c), func() any {
-				return map[string]any{"family": c.Family, "n": c.N, "ms_at_n": t1 / 1000, "ms_at_5n": t5 / 1000}
+				return map[string]any{"family": c.Family, "n": c.N, "ms_at_n": t1 / 1000, "ms_at_5n": t5 / 1000, "accepted": accepted}
 			}, "family_"+c.Family)
 		}
 		return ""
 	}
 }
 
+const c05ScalingRule = "time proportional to input size: every structured family (n/40 sequential FOR blocks among plain lines, the same after n/4 unrelated EQU lines, labelled blocks whose labels are used, three nested blocks with n copies, one flat FOR of n, EQU chain of depth n, one EQU referring to n symbols, n independent EQUs, one EQU used by n lines, a 20-deep EQU chain used by n lines, n labelled lines (plain and colon form), n label names on one instruction, n labels each followed by a comment line, n plain lines, long sums on every tenth line, END with a label after n lines, n comment lines, n ;strategy lines, n ;name/;author lines, n ;assert lines) is assembled at n and at 5n (n in {12000, 14000, 16000}: the quick tier takes one size per family chosen by the seed, the thorough tier all three) in the isolated worker under a valid configuration (core 2^34, length limit 2^30); it is a violation when the larger run takes more than 300 ms and more than 12 times the smaller one (linear: about 5, quadratic: 25) and still does after re-measuring both (best of three). Every case is non-trivial; distinct by (family, n)."
+
 func TestC05_Scaling(t *testing.T) {
 	if hx.Shard() != 0 {
 		t.Skip("timing comparisons run on one shard only (they need a quiet core)")
 	}
-	hx.Run(t, hx.Prop[scaleCase]{
-		ID: "C05", Sub: "scaling", Checks: hx.Scale(12, 60),
-		Rule: "time proportional to input size: structured families (n/40 sequential FOR blocks among plain lines, the same after n/4 unrelated EQU lines, EQU chain, one EQU referring to n symbols, n independent EQUs, n labelled lines, n plain lines, n comment lines, one flat FOR of n, n label names on one instruction) are assembled at n and at 5n in the isolated worker (best of three runs each); it is a violation when the larger run takes more than 300 ms and more than 12 times the smaller one (linear: about 5, quadratic: 25). Every case is non-trivial; distinct by (family, n).",
-		Gen: genScaleCase, Judge: judgeScaleCase(t),
-	})
+	if hx.ReplayPath() != "" {
+		hx.Run(t, hx.Prop[scaleCase]{ID: "C05", Sub: "scaling", Checks: 1, Rule: c05ScalingRule, Gen: genScaleCase, Judge: judgeScaleCase(t)})
+		return
+	}
+	// the domain is a small finite set: sweep it instead of sampling it
+	rec := hx.NewRec("C05", "scaling", c05ScalingRule)
+	complete := false
+	t.Cleanup(func() { rec.Flush(complete) })
+	judge := judgeScaleCase(t)
+	for fi, fam := range scaleFamilies {
+		sizes := []int{scaleSizes[(int(hx.Seed()%3)+fi)%len(scaleSizes)]}
+		if hx.Thorough() {
+			sizes = scaleSizes
+		}
+		for _, n := range sizes {
+			c := scaleCase{Family: fam, N: n}
+			var msg string
+			if pm := hx.Safely(func() { msg = judge(c, rec) }); pm != "" {
+				msg = pm
+			}
+			if msg != "" && hx.IsInfra(msg) {
+				t.Fatalf("VERIF-INFRA %s", msg)
+			}
+			if msg != "" {
+				hx.WriteFailure("C05", "scaling", msg, c)
+				t.Fatalf("%s", msg)
+			}
+		}
+	}
+	complete = true
 }
